@@ -189,6 +189,33 @@ class World:
         if sf != df:
             self.flags["cross"] = True
 
+    def op_occupied(self, op):
+        """cp / mv / ln onto a destination that already holds a collection (same file): the call must fail and
+        neither the source nor the destination nor anything else may change."""
+        from cooler import fileops
+
+        sf, sp = self._src(op)
+        if sf is None:
+            return False
+        others = sorted(p for p, e in self.entries[sf].items() if e["kind"] == "cooler" and p not in ("/", sp))
+        if not others:
+            return False
+        dp = others[op["dst"] % len(others)]
+        fn = {"cp": fileops.cp, "mv": fileops.mv, "ln": fileops.ln}[op["what"]]
+        try:
+            if op.get("cli"):
+                from ..cliutil import run_cli
+
+                rc, _, exc = run_cli([op["what"], self.uri(sf, sp, op["slash"]), self.uri(sf, dp, not op["slash"])])
+                failed = rc != 0
+            else:
+                fn(self.uri(sf, sp, op["slash"]), self.uri(sf, dp, not op["slash"]))
+                failed = False
+        except Exception:  # noqa: BLE001 - refusal is the required outcome
+            failed = True
+        check(failed, f"{op['what']} {sp} -> {dp} onto an occupied destination was accepted")
+        # the model is unchanged: check_all() verifies that nothing was harmed
+
     def op_cp_to_root(self, op):
         """cp <file>::<nested collection> <other file>  - the destination is the ROOT of the other file (which holds no
         root collection yet): the root-destination special case with a nested source."""
@@ -362,6 +389,11 @@ def make_machine(ctx: Ctx):
         @rule(src_file=st.integers(0, 1), src=st.integers(0, 9), dst_file=st.integers(0, 1), dst=st.integers(0, 9), slash=st.booleans(), cli=st.booleans())
         def cp(self, src_file, src, dst_file, dst, slash, cli):
             self.w.apply({"op": "cp", "src_file": src_file, "src": src, "dst_file": dst_file, "dst": dst, "slash": slash, "cli": cli})
+
+        @rule(src_file=st.integers(0, 1), src=st.integers(0, 9), dst=st.integers(0, 9), what=st.sampled_from(["cp", "mv", "ln"]),
+              slash=st.booleans(), cli=st.booleans())
+        def occupied(self, src_file, src, dst, what, slash, cli):
+            self.w.apply({"op": "occupied", "src_file": src_file, "src": src, "dst": dst, "what": what, "slash": slash, "cli": cli})
 
         @rule(src_file=st.integers(0, 1), src=st.integers(0, 9), slash=st.booleans(), cli=st.booleans())
         def cp_to_root(self, src_file, src, slash, cli):
